@@ -628,7 +628,11 @@ class Process:
         proc = self.parent()
         while proc is not None:
             parents.append(proc)
-            proc = proc.parent()
+            try:
+                proc = proc.parent()
+            except NoSuchProcess:
+                # that ancestor is gone by now: the chain ends here
+                break
         return parents
 
     def is_running(self):
